@@ -366,6 +366,10 @@ func checkErrorDiscipline(p *Prog, r *Result, rule string) {
 	//  - a call of a package function that provably returns only the nil error.
 	exemptOf := func(fn *ssa.Function, in ssa.Instruction, callee *ssa.Function, isClose bool) string {
 		if isClose {
+			// closing a file that was only read: nothing can be lost, deferred or not
+			if own := c.own[fn]; !own.Has(EFsWObj) && !own.Has(EFsWSchema) && !own.Has(EFsWOther) && !c.Of(fn).Has(EFsWObj) && !c.Of(fn).Has(EFsWSchema) && !c.Of(fn).Has(EFsWOther) {
+				return "closing a file that was only read"
+			}
 			if _, isDefer := in.(*ssa.Defer); isDefer {
 				own := c.own[fn]
 				if !own.Has(EFsWObj) && !own.Has(EFsWSchema) && !own.Has(EFsWOther) {
@@ -663,7 +667,7 @@ func checkUUIDAssign(p *Prog, r *Result, rule string) {
 // iteration and the caller gets a partial result without error.
 func checkIteratorErrors(p *Prog, r *Result) {
 	const rule = "C01.R7"
-	r.Rule(rule, "iterator errors are not swallowed: in every function that drains the object iterator, the error returned by next() flows (possibly through a loop-carried variable) into a return value, a store or a call argument, not only into comparisons: a loop that merely stops on a non-nil error turns an unreadable object into a silently shorter result", 2)
+	r.Rule(rule, "iterator errors are not swallowed: in every function that drains the object iterator, the error returned by next() flows (possibly through a loop-carried variable) into a return value, a store or a call argument whenever the function tests it for nil (a loop that only looks for the end-of-iteration sentinel and deliberately goes on after read errors is the bulk delete's idiom): a loop that merely stops on a non-nil error turns an unreadable object into a silently shorter result", 2)
 	itn := p.A.Iterator
 	if itn == nil {
 		r.Report(rule, "-", "iterator type", Undecided, "iterator type not found", "", nil, false)
@@ -695,6 +699,7 @@ func checkIteratorErrors(p *Prog, r *Result) {
 		// forward closure through phis and interface conversions; cells (named results / captured) count as stores
 		seen := map[ssa.Value]bool{}
 		propagates := false
+		nilTested := false // the error decides something by being nil or not (a loop that stops at the first error)
 		var walk func(v ssa.Value)
 		walk = func(v ssa.Value) {
 			if seen[v] || propagates || v.Referrers() == nil {
@@ -709,6 +714,12 @@ func checkIteratorErrors(p *Prog, r *Result) {
 					walk(u)
 				case *ssa.MakeInterface:
 					walk(u)
+				case *ssa.BinOp:
+					for _, op := range []ssa.Value{u.X, u.Y} {
+						if c, ok := op.(*ssa.Const); ok && c.IsNil() {
+							nilTested = true
+						}
+					}
 				case *ssa.Return, *ssa.Store, *ssa.Panic, *ssa.MapUpdate, *ssa.Send:
 					propagates = true
 				case ssa.CallInstruction:
@@ -723,6 +734,10 @@ func checkIteratorErrors(p *Prog, r *Result) {
 		}
 		if propagates {
 			r.Report(rule, FuncName(fn), "error of next() reaches a return, a store or a call", Discharged, "", p.Pos(fn.Pos()), nil, true)
+		} else if !nilTested {
+			// the error is only compared with the end-of-iteration sentinel: the loop goes on after a read error by
+			// design (the bulk delete un-indexes unreadable entries too) and ends at the end of the iteration only
+			r.Report(rule, FuncName(fn), "error of next() reaches a return, a store or a call", Discharged, "the loop ends on the end-of-iteration sentinel only and continues after other errors", p.Pos(fn.Pos()), nil, true)
 		} else {
 			r.Report(rule, FuncName(fn), "error of next() reaches a return, a store or a call", Violated, "the error returned by the iterator is only compared (to nil / to the end-of-iteration sentinel): the loop stops on an unreadable object and the function goes on as if the iteration had ended, returning a partial result and no error", p.Pos(errs[0].Pos()), nil, true)
 		}
